@@ -231,8 +231,79 @@ inline void limitsStrings(Ctx& C) {
   }
 }
 
+// the deserializers at the slot limit: an array / object of limit-1, limit, limit+1, limit+2 slots as JSON and as MessagePack
+// (16- and 32-bit headers), and headers that announce more than the limit but are followed by three elements only
+inline void limitsDeserialize(Ctx& C) {
+  const size_t LIMIT = (size_t(1) << (8 * ARDUINOJSON_SLOT_ID_SIZE)) - 1;
+  static const char* fmts[] = {"json-array", "msgpack-array16", "msgpack-array32", "json-object", "msgpack-map16", "msgpack-map32"};
+  for (int fmt = 0; fmt < 6; fmt++) {
+    bool isMap = fmt >= 3;
+    size_t per = isMap ? 2 : 1, fit = LIMIT / per;
+    for (int delta = -1; delta <= 3; delta++) {
+      // delta 3: the header announces fit+1 children but only three are present (msgpack), or the text stops after three (json)
+      bool truncated = delta == 3;
+      size_t n = truncated ? fit + 1 : fit + size_t(long(delta));
+      size_t present = truncated ? 3 : n;
+      LimitCase L(C, std::string("limits:cfg=") + cfgName() + "|script=deserialize-" + fmts[fmt] + (truncated ? "|announced=fit+1,present=3" : "|children=fit" + std::string(delta < 0 ? "-1" : delta == 0 ? "" : "+" + std::to_string(delta))));
+      C.begin(L.key);
+      std::string in;
+      auto keyOf = [](size_t i) { char b[16]; snprintf(b, sizeof b, "k%05zu", i); return std::string(b); };
+      if (fmt == 0 || fmt == 3) {
+        in = isMap ? "{" : "[";
+        for (size_t i = 0; i < present; i++) {
+          if (i) in += ",";
+          if (isMap) in += "\"" + keyOf(i) + "\":";
+          in += std::to_string(i % 100);
+        }
+        if (!truncated) in += isMap ? "}" : "]";
+      } else {
+        bool wide = fmt == 2 || fmt == 5;
+        in.push_back(char(isMap ? (wide ? 0xdf : 0xde) : (wide ? 0xdd : 0xdc)));
+        if (wide) { in.push_back(char(n >> 24)); in.push_back(char(n >> 16)); }
+        in.push_back(char(n >> 8));
+        in.push_back(char(n));
+        for (size_t i = 0; i < present; i++) {
+          if (isMap) { in.push_back(char(0xa6)); in += keyOf(i); }
+          in.push_back(char(i % 100));
+        }
+      }
+      JsonDocument& doc = L.doc;
+      DeserializationError err = (fmt == 0 || fmt == 3) ? deserializeJson(doc, in.data(), in.size()) : deserializeMsgPack(doc, in.data(), in.size());
+      std::string code = err.c_str();
+      if (truncated) {
+        if (code != "IncompleteInput") L.fail("below-limit", "three children fit, the input ends early: expected IncompleteInput in every geometry, got " + code);
+      } else if (n <= fit) {
+        if (code != "Ok") L.fail("below-limit", "deserializing " + std::to_string(n) + " children (" + std::to_string(n * per) + " of " + std::to_string(LIMIT) + " slots) returned " + code);
+        if (doc.overflowed()) L.fail("below-limit", "overflowed() set although the input fits");
+        if (doc.size() != n) L.fail("below-limit", "size() is " + std::to_string(doc.size()) + ", expected " + std::to_string(n));
+        size_t i = 0;
+        bool ok = true;
+        if (isMap) for (JsonPairConst p : doc.as<JsonObjectConst>()) { if (std::string(p.key().c_str()) != keyOf(i) || p.value().as<size_t>() != i % 100) ok = false; i++; }
+        else for (JsonVariantConst e : doc.as<JsonArrayConst>()) { if (e.as<size_t>() != i % 100) ok = false; i++; }
+        if (!ok || i != n) L.fail("intact", "the children do not read back their values");
+      } else {
+        if (code != "NoMemory") L.fail("at-limit", "deserializing " + std::to_string(n * per) + " slots with a limit of " + std::to_string(LIMIT) + " returned " + code + " instead of NoMemory");
+        if (!doc.overflowed()) L.fail("at-limit", "NoMemory at the slot limit without overflowed()");
+        size_t cnt = 0;
+        if (isMap) for (JsonPairConst p : doc.as<JsonObjectConst>()) { (void)p; if (++cnt > n + 5) break; }
+        else for (JsonVariantConst e : doc.as<JsonArrayConst>()) { (void)e; if (++cnt > n + 5) break; }
+        if (cnt > fit || cnt != doc.size()) L.fail("intact", "after NoMemory the document iterates " + std::to_string(cnt) + " children, size() " + std::to_string(doc.size()));
+      }
+      L.common("after deserialization");
+      doc.clear();
+      if (!L.A.live.empty()) L.fail("clear", "blocks live after clear(): " + L.A.liveSignature());
+      if (doc.overflowed()) L.fail("clear", "overflowed() still set after clear()");
+      if (!doc.add(1) || doc.size() != 1) L.fail("reuse", "document not usable after clear()");
+      if (n > fit || truncated) C.nontrivial();
+      C.outcome(std::string("deserialize-") + fmts[fmt] + ":" + code);
+      C.end();
+    }
+  }
+}
+
 inline void runLimits(Ctx& C) {
 #if ARDUINOJSON_SLOT_ID_SIZE <= 2
+  if (C.take()) limitsDeserialize(C);
   for (int kind = 0; kind < 4; kind++) {
     if (!C.take()) continue;
     limitsArray(C, kind);
@@ -244,7 +315,7 @@ inline void runLimits(Ctx& C) {
   C.metrics["states"] += double(C.evaluations);
   C.metrics["transitions"] += double(C.evaluations);
   C.bound(std::string("fill/remove/refill/clear scripts for 4 value kinds at slot limit ") + std::to_string((size_t(1) << (8 * ARDUINOJSON_SLOT_ID_SIZE)) - 1) +
-          "; strings of length max-1, max, max+1 through set, key, deserializeJson, deserializeMsgPack; geometry " + cfgName() + ",len" + std::to_string(ARDUINOJSON_STRING_LENGTH_SIZE));
+          "; arrays / objects of limit-1 .. limit+2 slots and over-announcing truncated headers through deserializeJson and deserializeMsgPack (16- and 32-bit headers); strings of length max-1, max, max+1 through set, key, deserializeJson, deserializeMsgPack, Printable; geometry " + cfgName() + ",len" + std::to_string(ARDUINOJSON_STRING_LENGTH_SIZE));
 }
 
 }  // namespace hx
